@@ -544,7 +544,11 @@ def execute_subscription(
         executor.hide_suggestions,
     ).grouped_field_set
 
-    first_root_field = next(iter(grouped_field_set.items()))
+    first_root_field = next(iter(grouped_field_set.items()), None)
+    if first_root_field is None:
+        # every root field is excluded by @skip or @include
+        msg = "Subscription operation does not select a root field."
+        raise GraphQLError(msg, executor.operation)
     response_name, field_details_list = first_root_field
     field_name = field_details_list[0].node.name.value
     field_def = schema.get_field(root_type, field_name)
